@@ -167,6 +167,7 @@ type provider struct {
 
 	// hold support: when armed, the next Instance call blocks (after its bookkeeping) until the
 	// harness closes releaseC or the context ends
+	started  int // calls begun (completed ones are in calls)
 	armed    bool
 	holding  bool
 	heldIps  []string
@@ -240,6 +241,7 @@ func (p *provider) Instance(ctx context.Context, ips ...gostatsd.Source) (map[go
 	p.mu.Lock()
 	defer p.mu.Unlock()
 	n := len(p.calls) + 1
+	p.started++
 	out := byte('F')
 	if n-1 < len(p.script) {
 		out = p.script[n-1]
@@ -297,6 +299,13 @@ func (p *provider) Instance(ctx context.Context, ips ...gostatsd.Source) (map[go
 	p.r.Event("provider_calls", 1)
 	p.r.Event("provider_outcome_"+string(out), 1)
 	return res, err
+}
+
+// progress returns how many provider calls have begun and how many have returned.
+func (p *provider) progress() (started, completed int) {
+	p.mu.Lock()
+	defer p.mu.Unlock()
+	return p.started, len(p.calls)
 }
 
 func (p *provider) callCount() int {
@@ -500,6 +509,8 @@ type entry struct {
 type seq struct {
 	*env
 	limName string
+	dry     bool        // violations are collected in held instead of being reported
+	held    [][2]string // (sig, detail)
 	idx     int
 	script  string
 	batch   int
@@ -532,6 +543,11 @@ func (s *seq) header() string {
 }
 func (s *seq) violation(sig, detail string) {
 	s.bad = true
+	if s.dry {
+		// judged on a state that may still be moving: kept back until the caller knows it was stable
+		s.held = append(s.held, [2]string{sig, detail + "\n" + s.header() + "\nhistory: " + strings.Join(s.log, " ; ")})
+		return
+	}
 	s.r.Violation(sig, detail+"\n"+s.header()+"\nhistory: "+strings.Join(s.log, " ; "), s.replay())
 }
 func (s *seq) stuck(sig, detail string) {
@@ -633,7 +649,8 @@ func (s *seq) settle(tok, what string) {
 
 func (s *seq) exact() {
 	for _, src := range s.pool {
-		o, a := s.prov.occurrences(src), s.dr.count(src)
+		a := s.dr.count(src) // answers first: a query counted later can only make "a > o" less likely
+		o := s.prov.occurrences(src)
 		if o > s.exp[src] {
 			s.violation("unexpected-provider-query", fmt.Sprintf("source %s appears in %d provider calls, only %d lookups were requested (submissions + entries past their TTL at a refresh tick)", src, o, s.exp[src]))
 			return
@@ -1339,20 +1356,8 @@ func runHeld(r *mon.Run, idx int, batch int, wd time.Duration) *held {
 			}
 		}
 	}
-	hiT := wallNow()
-	occ := s.prov.occAll()
-	for _, src := range s.pool {
-		a := s.dr.count(src)
-		switch {
-		case a > occ[src]:
-			s.violation("more-answers-than-queries", fmt.Sprintf("after the held call was released: source %s was queried %d times but %d answers arrived on InfoSource", src, occ[src], a))
-			return h
-		case occ[src] > h.maxExp[src]:
-			s.violation("unexpected-provider-query", fmt.Sprintf("after the held call was released: source %s appears in %d provider calls (%d before the release); submissions plus every tick at which it was past its TTL give at most %d", src, occ[src], before[src], h.maxExp[src]))
-			return h
-		}
-	}
 	if !stable {
+		occ := s.prov.occAll()
 		for _, src := range s.pool {
 			if occ[src] < h.minExp[src] {
 				s.stuck("never-queried:after-release", fmt.Sprintf("source %s was past its TTL at a refresh tick while a provider call was blocked; after the release it appears in %d provider calls, expected at least %d", src, occ[src], h.minExp[src]))
@@ -1368,20 +1373,57 @@ func runHeld(r *mon.Run, idx int, batch int, wd time.Duration) *held {
 		s.inconclusive = "held-run-not-quiescent"
 		return h
 	}
-	for _, src := range s.pool {
-		s.exp[src] = occ[src]
-	}
-	s.applyCalls(hiT)
-	if s.live() {
-		s.sync(true)
-	}
-	for _, src := range s.pool {
-		if s.live() {
-			s.peek(src, "after the held provider call was released and every lookup answered")
+	// The refresh lookups queued during the hold drain at the pace of the scheduler: "stable for 15 ms" does
+	// not prove that the last provider call has been made. The final judgement is therefore made on a
+	// snapshot and reported only if no provider call began or returned while it was being made (every call
+	// that had returned was answered, so the cache held exactly the calls the automaton was fed); otherwise
+	// it is thrown away and made again.
+	for attempt := 0; ; attempt++ {
+		if attempt == 10 || !mon.WaitUntil(s.wd, quiet) {
+			s.inconclusive = "held-run-not-quiescent"
+			return h
 		}
-	}
-	if s.live() {
-		s.checkAnswers()
+		st1, co1 := s.prov.progress()
+		s.dry, s.held, s.bad = true, nil, false
+		answers := map[string]int{}
+		for _, src := range s.pool {
+			answers[src] = s.dr.count(src) // answers before queries: a later query cannot make this look wrong
+		}
+		occ := s.prov.occAll()
+		for _, src := range s.pool {
+			switch {
+			case answers[src] > occ[src]:
+				s.violation("more-answers-than-queries", fmt.Sprintf("after the held call was released: source %s was queried %d times but %d answers arrived on InfoSource", src, occ[src], answers[src]))
+			case occ[src] > h.maxExp[src]:
+				s.violation("unexpected-provider-query", fmt.Sprintf("after the held call was released: source %s appears in %d provider calls (%d before the release); submissions plus every tick at which it was past its TTL give at most %d", src, occ[src], before[src], h.maxExp[src]))
+			}
+			s.exp[src] = occ[src]
+		}
+		if s.live() {
+			s.applyCalls(wallNow())
+		}
+		if s.live() {
+			s.sync(true)
+		}
+		for _, src := range s.pool {
+			if s.live() {
+				s.peek(src, "after the held provider call was released and every lookup answered")
+			}
+		}
+		if s.live() {
+			s.checkAnswers()
+		}
+		s.dry = false
+		st2, co2 := s.prov.progress()
+		if st1 == co1 && st2 == st1 && co2 == co1 && (quiet() || s.bad) {
+			for _, v := range s.held {
+				s.r.Violation(v[0], v[1], s.replay())
+			}
+			break
+		}
+		// the provider was called meanwhile: what was judged is not a state of the cache
+		s.r.Event("held_final_judgement_repeated", 1)
+		s.bad, s.held, s.inconclusive = false, nil, ""
 	}
 	return h
 }
